@@ -7,8 +7,12 @@
 //! (`kind` "num": the decimal string `s`; "text": the text `s`) and the format code `fmt`; every other
 //! field of the item (the token structure the specification renders from) is passed through
 //! untouched.  The driver never judges.  Facts it adds with Rust's std only (never the library):
-//!   rt     kind "num": `s` is exactly what `f64::to_string` prints for the parsed number
-//!   isnum  kind "text": whether std's f64 parser accepts the text
+//!   rt     `s` is exactly what `f64::to_string` prints for the parsed number
+//!   isnum  whether std's f64 parser accepts `s`
+//!   h24    `(|x| * 24.0).to_string()`, fr1 `(|x| % 1.0).to_string()`, dv `[(|x| / 1e3).to_string(), (|x| / 1e6)..]`:
+//!          the trace specification requires them to equal the exact decimal results wherever the deviant
+//!          outcome of a recorded finding is a function of that binary arithmetic ("" when `s` is no number)
+//!   outc   the characters of `out` (TLC cannot look into a string)
 use serde_json::{json, Value};
 use umya_spreadsheet::helper::number_format::to_formatted_string;
 use uverif::*;
@@ -59,6 +63,21 @@ fn run(case: &Value) -> Vec<Value> {
             _ => (json!("panic"), json!("panic")),
         };
         let mut o = it.clone();
+        let (h24, fr1, dv) = match &parsed {
+            Ok(x) if x.is_finite() => {
+                let a = x.abs();
+                ((a * 24f64).to_string(), (a % 1f64).to_string(), vec![(a / 1e3).to_string(), (a / 1e6).to_string()])
+            }
+            _ => (String::new(), String::new(), vec![String::new(), String::new()]),
+        };
+        o["h24"] = json!(h24);
+        o["fr1"] = json!(fr1);
+        o["dv"] = json!(dv);
+        let outc: Vec<String> = match &out {
+            Value::String(t) => t.chars().map(|c| c.to_string()).collect(),
+            _ => vec![],
+        };
+        o["outc"] = json!(outc);
         o["rt"] = json!(rt);
         o["isnum"] = json!(isnum);
         o["out"] = out;
